@@ -5,6 +5,7 @@ package device
 import (
 	"errors"
 
+	"github.com/hknutzen/Netspoc-Approve/go/pkg/codefiles"
 	"github.com/hknutzen/Netspoc-Approve/go/pkg/deviceconf"
 	"github.com/hknutzen/Netspoc-Approve/go/pkg/errlog"
 )
@@ -26,4 +27,38 @@ func VerifLoadSpoc(fname string) (deviceconf.Config, error) {
 		return nil, errors.New("aborted")
 	}
 	return conf, err
+}
+
+// VerifLoadSpocSteps does what loadSpoc does and shows every configuration
+// to the callback: the three parsed files before they are merged ("v4", "v6",
+// "raw") and the merged configuration after each MergeSpoc ("v4+v6",
+// "v4+v6+raw"). aborted: errlog.Abort has been called.
+// Only used by the verification harness (property C18).
+func VerifLoadSpocSteps(
+	v4Path string, show func(stage string, c deviceconf.Config),
+) (aborted bool, err error) {
+	rc := errlog.HandleAbort(func() int {
+		errlog.Quiet = true
+		errlog.SetStderrLog("")
+		s := &state{RealDevice: getRealDevice(v4Path)}
+		var conf4, conf6, raw deviceconf.Config
+		if conf4, err = s.loadSpocFile(v4Path); err != nil {
+			return 0
+		}
+		show("v4", conf4)
+		if conf6, err = s.loadSpocFile(codefiles.GetIPv6Fname(v4Path)); err != nil {
+			return 0
+		}
+		show("v6", conf6)
+		conf := conf4.MergeSpoc(conf6)
+		show("v4+v6", conf)
+		if raw, err = s.loadSpocFile(v4Path + ".raw"); err != nil {
+			return 0
+		}
+		show("raw", raw)
+		conf = conf.MergeSpoc(raw)
+		show("v4+v6+raw", conf)
+		return 0
+	})
+	return rc != 0, err
 }
